@@ -86,6 +86,9 @@ type wrap struct {
 	// the adapter counts in (ok=false: outside what that unit can express)
 	scanner  func(v interface{}) error
 	timeText func(t time.Time) (string, bool)
+	// scribble: the caller owns the value it was given - overwrite the aggregate the variable holds
+	// (nil for types whose values are not aggregates)
+	scribble func()
 }
 
 // ------------------------------------------------------------------ JSON adapted wrappers
@@ -133,6 +136,9 @@ func jsonWrap[T any, PT interface {
 	w.keep = func() func() interface{} {
 		v := h.A
 		return func() interface{} { return toVal(v) }
+	}
+	if _, ok := interface{}(&h.A).(*tex.JsByte); ok {
+		w.scribble = func() { scribbleBytes(*interface{}(&h.A).(*tex.JsByte)) }
 	}
 	w.dec = []via{
 		{"direct", func(tok []byte) error { return PT(&h.A).UnmarshalJSON(tok) }},
@@ -253,6 +259,33 @@ func jsonWrap[T any, PT interface {
 }
 
 func bytesVal(b []byte) interface{} { return tr.Ints(b) }
+
+// scribbleBytes overwrites a slice the code under test handed out, up to its capacity
+func scribbleBytes(b []byte) {
+	b = b[:cap(b)]
+	for i := range b {
+		b[i] = 0xA5 ^ byte(i)
+	}
+}
+
+// rle renders a long byte list compactly ([value, run length] pairs); used for both sides of the
+// round trips of very long lists, where only equality is judged
+func rle(v interface{}) interface{} {
+	l, ok := v.([]int)
+	if !ok {
+		return v
+	}
+	out := make([][]int, 0, 8)
+	for i := 0; i < len(l); {
+		j := i
+		for j < len(l) && l[j] == l[i] {
+			j++
+		}
+		out = append(out, []int{l[i], j - i})
+		i = j
+	}
+	return out
+}
 
 func genI64(r *rand.Rand) g {
 	edges := []int64{0, 1, -1, 9, 10, 255, 256, math.MaxInt32, math.MinInt32, math.MaxInt32 + 1, math.MinInt32 - 1,
@@ -439,6 +472,7 @@ func rawWrappers() []*wrap {
 			},
 			scanner:  func(v interface{}) error { return x.Scan(v) },
 			timeText: func(t time.Time) (string, bool) { return "time", true },
+			scribble: func() { scribbleBytes(x) },
 			val:      func() interface{} { return bytesVal(x) }, gval: gB, genv: genBytes,
 			dec: []via{
 				{"scanstring", func(t []byte) error { return x.Scan(string(t)) }},
@@ -552,7 +586,8 @@ func rawWrappers() []*wrap {
 	{
 		var x tex.JsByte
 		ws = append(ws, &wrap{ty: "bytestext", kind: "rawlist", reset: func() { x = tex.JsByte{7, 77} },
-			fresh: func() { x = nil },
+			scribble: func() { scribbleBytes(x) },
+			fresh:    func() { x = nil },
 			keep: func() func() interface{} {
 				v := x
 				return func() interface{} { return bytesVal(v) }
@@ -574,6 +609,8 @@ func rawWrappers() []*wrap {
 	{
 		var x tex.Duration
 		ws = append(ws, &wrap{ty: "durtext", kind: "rawdur", reset: func() { x = 7777 },
+			scanner:  func(v interface{}) error { return x.UnmarshalTOML(v) }, // takes interface{}: every kind
+			timeText: func(t time.Time) (string, bool) { return "time", true },
 			val: func() interface{} { return valI(int64(x), 10) }, gval: gI, genv: genDur,
 			dec: []via{{"toml", func(t []byte) error { return x.UnmarshalTOML(string(t)) }}},
 			rt: []rtvia{{"toml", func(v g) ([]byte, error) {
@@ -1173,6 +1210,99 @@ func (x *runner) dec(v via, tok []byte) {
 	x.emit(tr.E{"ev": "dec", "via": v.name, "tok": tr.Ints(tok), "out": out, "v": x.wr.val(),
 		"inmut": !bytes.Equal(in, tok), "keep": false})
 	x.decs++
+	scribbleBytes(in) // the source buffer is the caller's again
+	if x.wr.scribble != nil && out == "ok" && x.decs%3 == 0 {
+		x.wr.scribble() // and so is the value: the caller overwrites it and carries on
+		x.freshDest()
+	}
+}
+
+// repeat: one decode and one round trip done n times in a row (n around 2^8 and 2^16: counters,
+// sequence numbers, pools that a change may have introduced and narrowed).  Consecutive calls with
+// the same observable outcome are logged as one event with the run length `rep`; the variable is
+// in the same state before each of them, so the event stands for all of them.
+func (x *runner) repeat(v via, tok []byte, rv rtvia, val g, n int) {
+	type obs struct{ out, v string }
+	render := func(out string) obs { return obs{out, fmt.Sprint(x.wr.val())} }
+	flush := func(e tr.E, rep int) {
+		if e != nil {
+			e["rep"] = rep
+			x.emit(e)
+		}
+	}
+	if x.n+70 >= x.maxLen {
+		x.begin()
+	}
+	events := 0
+	if len(x.wr.dec) > 0 && x.wr.kind != "scan" {
+		var cur tr.E
+		var last obs
+		rep := 0
+		for i := 0; i < n && events < 30; i++ {
+			in := append(make([]byte, 0, len(tok)), tok...)
+			out := call(func() error { return v.f(in) })
+			o := render(out)
+			if i > 1 && o == last && bytes.Equal(in, tok) { // i = 0 sets the state, i = 1 starts the run
+				rep++
+				continue
+			}
+			flush(cur, rep)
+			x.n++
+			events++
+			cur = tr.E{"ev": "dec", "via": v.name, "tok": tr.Ints(tok), "out": out, "v": x.wr.val(),
+				"inmut": !bytes.Equal(in, tok), "keep": false}
+			last, rep = o, 1
+			x.decs++
+		}
+		flush(cur, rep)
+	}
+	var cur tr.E
+	var last obs
+	var lastEnc []byte
+	rep := 0
+	events = 0
+	for i := 0; i < n && events < 30; i++ {
+		x.wr.reset()
+		var enc []byte
+		out := call(func() error {
+			var err error
+			enc, err = rv.f(val)
+			return err
+		})
+		if enc == nil {
+			enc = []byte{}
+		}
+		o := render(out)
+		if i > 0 && o == last && bytes.Equal(enc, lastEnc) {
+			rep++
+			scribbleBytes(enc)
+			continue
+		}
+		flush(cur, rep)
+		x.n++
+		events++
+		cur = tr.E{"ev": "rt", "via": rv.name, "v": x.wr.gval(val), "enc": tr.Ints(enc), "out": out, "back": x.wr.val(), "keep": false}
+		last, lastEnc, rep = o, append([]byte{}, enc...), 1
+		x.rts++
+		scribbleBytes(enc)
+	}
+	flush(cur, rep)
+}
+
+// bigRoundTrip: very long lists (lengths around 2^16), both sides logged run-length encoded
+func (x *runner) bigRoundTrip(v rtvia, val g) {
+	x.step()
+	x.wr.reset()
+	var enc []byte
+	out := call(func() error {
+		var err error
+		enc, err = v.f(val)
+		return err
+	})
+	x.emit(tr.E{"ev": "rt", "via": v.name, "v": rle(x.wr.gval(val)), "enc": []int{}, "enclen": len(enc), "out": out,
+		"back": rle(x.wr.val()), "keep": false})
+	x.rts++
+	x.freshDest() // back to a variable whose value is logged in full
 }
 
 // scanAny: the sql.Scanner entry is handed every kind of source value database/sql can produce
@@ -1208,6 +1338,14 @@ func (x *runner) scanAny(rng *rand.Rand, n int) {
 		srcs = append(srcs, src{"float64", v, strconv.FormatFloat(v, 'f', -1, 64)})
 	}
 	srcs = append(srcs, src{"bool", true, "true"}, src{"bool", false, "false"}, src{"nil", nil, "null"})
+	// further dynamic kinds an interface{} parameter can carry
+	var np *int64
+	n7 := int64(7)
+	srcs = append(srcs, src{"other", np, "nilptr"}, src{"other", &n7, "ptr"}, src{"other", struct{ A int }{7}, "struct"},
+		src{"other", map[string]int{"a": 7}, "map"}, src{"other", []int{7}, "ints"}, src{"other", func() {}, "func"},
+		src{"other", json.Number("7"), "json.Number"}, src{"other", int8(7), "int8"}, src{"other", float32(7), "float32"},
+		src{"other", []string{"7"}, "strings"}, src{"other", [2]byte{55, 55}, "array"},
+		src{"bytes", []byte(nil), ""}, src{"bytes", []byte{}, ""}, src{"string", "", ""})
 	for _, v := range texts {
 		srcs = append(srcs, src{"string", v, v}, src{"bytes", nil, v})
 	}
@@ -1223,6 +1361,9 @@ func (x *runner) scanAny(rng *rand.Rand, n int) {
 		var out string
 		if c.kind == "bytes" {
 			in := append(make([]byte, 0, len(c.tok)), c.tok...)
+			if b, isb := c.v.([]byte); isb && b == nil {
+				in = nil // a nil []byte is a source of its own
+			}
 			out = call(func() error { return x.wr.scanner(in) })
 			inmut = string(in) != c.tok
 		} else {
@@ -1232,6 +1373,14 @@ func (x *runner) scanAny(rng *rand.Rand, n int) {
 		x.emit(tr.E{"ev": "scan", "kind": c.kind, "tok": tr.Str(c.tok), "out": out, "v": x.wr.val(), "inmut": inmut})
 		x.decs++
 	}
+}
+
+// decNil: a nil source
+func (x *runner) decNil(v via) {
+	x.step()
+	out := call(func() error { return v.f(nil) })
+	x.emit(tr.E{"ev": "dec", "via": v.name, "tok": []int{}, "out": out, "v": x.wr.val(), "inmut": false, "keep": false})
+	x.decs++
 }
 
 func (x *runner) freshDest() {
@@ -1261,6 +1410,7 @@ func (x *runner) rows(rng *rand.Rand, texts [][]byte, nrows int) {
 	col := make([]byte, 0, 64)
 	var kept []func() interface{}
 	var in, text []byte
+	var seen [][]byte
 	for r := 0; r < nrows; r++ {
 		switch k := rng.Intn(10); {
 		case r > 0 && k < 2: // the same source once more
@@ -1286,10 +1436,15 @@ func (x *runner) rows(rng *rand.Rand, texts [][]byte, nrows int) {
 			in = append(col[:0], text...)
 			col = in[:0]
 		default:
-			text = texts[rng.Intn(len(texts))]
+			if len(seen) > 1 && rng.Intn(3) == 0 {
+				text = seen[rng.Intn(len(seen))] // an earlier row's text again (A B A)
+			} else {
+				text = texts[rng.Intn(len(texts))]
+			}
 			in = append(col[:0], text...)
 			col = in[:0]
 		}
+		seen = append(seen, text)
 		x.freshDest()
 		v := x.wr.dec[rng.Intn(len(x.wr.dec))]
 		src := in
@@ -1332,6 +1487,12 @@ func (x *runner) roundTrip(v rtvia, val g) {
 	if len(x.wr.dec) > 0 && x.wr.kind != "scan" {
 		x.dec(x.wr.dec[0], enc)
 	}
+	// the caller owns what it was given: it overwrites the wire form (and the decoded aggregate)
+	scribbleBytes(enc)
+	if x.wr.scribble != nil {
+		x.wr.scribble()
+		x.freshDest()
+	}
 }
 
 // genTokens: boundary + seeded texts for a token family, and the small-scope exhaustive set
@@ -1370,17 +1531,23 @@ func genTokens(kind string, rng *rand.Rand, ntok, elen int) (toks, exh [][]byte)
 	return
 }
 
+var sizes = []int{2, 3, 4, 5, 6, 7, 8, 9, 15, 16, 17, 31, 32, 33, 47, 48, 49, 63, 64, 65, 127, 128, 129, 255, 256, 257, 300}
+
 // extremes of the value domain of a wrapper (round trips start with these)
 func extremes(wr *wrap) []g {
 	var vals []g
 	switch wr.gval(g{}).(type) {
 	case []int:
 		vals = []g{{b: nil}, {b: []byte{}}, {b: []byte{0}}, {b: []byte{255}}, {b: []byte{0, 0}}, {b: []byte{1, 2, 3}}, {b: []byte{255, 0, 128, 127}}}
-		all := make([]byte, 300)
+		// lengths around the block sizes in sight (base64 groups of 3, 64-byte small buffers, 256,
+		// 1 KiB decoder chunks; 4 KiB pages in the thorough tier)
+		all := make([]byte, 4200)
 		for i := range all {
-			all[i] = byte(i)
+			all[i] = byte(i*7 + i/256)
 		}
-		vals = append(vals, g{b: all[:256]}, g{b: all})
+		for _, n := range sizes {
+			vals = append(vals, g{b: all[:n]})
+		}
 	default:
 		for _, i := range []int64{0, 1, -1, math.MaxInt64, math.MinInt64, math.MaxInt64 - 1, math.MinInt64 + 1, math.MaxInt32, math.MinInt32,
 			1e9, -1e9, 1500000000, -1500000000, 3600e9, -3600e9, 1e6, 1001, 999999999, -999999999, 60e9 + 1,
@@ -1460,7 +1627,11 @@ func main() {
 	nrows := flag.Int("rows", 12, "driver-style histories per wrapper (one reused buffer, results kept as returned)")
 	cold := flag.Int("cold", 4, "goroutines of the cold-start round that opens the run (0 = none)")
 	coldOnly := flag.Bool("coldonly", false, "only the cold-start round")
+	big := flag.Bool("big", false, "thorough sizes: lists around 1 KiB / 4 KiB, runs and lists around 2^16")
 	flag.Parse()
+	if *big {
+		sizes = append(sizes, 511, 512, 513, 767, 768, 769, 1023, 1024, 1025)
+	}
 	rng := rand.New(rand.NewSource(*seed))
 	w := tr.Create(*out)
 	watchdog(w, 20*time.Second)
@@ -1516,12 +1687,47 @@ func main() {
 			vals = append(vals, wr.genv(rng))
 		}
 		for i, v := range vals {
-			if i < nx {
+			if i < nx && len(v.b) <= 70 {
 				for _, rv := range wr.rt {
 					x.roundTrip(rv, v)
 				}
 			} else {
 				x.roundTrip(wr.rt[rng.Intn(len(wr.rt))], v)
+			}
+		}
+		// degenerate sources: nothing at all
+		if wr.kind == "dec" || wr.kind == "dur" || wr.kind == "list" {
+			x.dec(wr.dec[0], []byte{})
+			x.decNil(wr.dec[0])
+		}
+		// long runs of one operation, very long lists
+		runs := []int{257}
+		if *big {
+			runs = []int{255, 256, 257, 65535, 65536, 65537}
+		}
+		for _, n := range runs {
+			v := vals[rng.Intn(len(vals))]
+			var d via
+			var tok []byte
+			if len(wr.dec) > 0 && len(x.pool) > 0 {
+				d, tok = wr.dec[rng.Intn(len(wr.dec))], x.pool[rng.Intn(len(x.pool))]
+			}
+			x.repeat(d, tok, wr.rt[rng.Intn(len(wr.rt))], v, n)
+		}
+		if _, isList := wr.gval(g{}).([]int); isList {
+			lens := []int{4095, 4096, 4097}
+			if *big {
+				lens = append(lens, 65535, 65536, 65537)
+			}
+			for _, n := range lens {
+				b := make([]byte, n)
+				for i := range b {
+					b[i] = byte(i / 1000)
+				}
+				b[n-1] = 7
+				for _, rv := range wr.rt {
+					x.bigRoundTrip(rv, g{b: b})
+				}
 			}
 		}
 		if wr.scanner != nil {
